@@ -1,8 +1,9 @@
 """C10 - the SRT reader reproduces every cue's time, lines and formatting exactly.
 
 Theorems: coq/Properties/C10.v (exact times for every digit string of the pattern; round trip
-read(print f) = cues f for every grammar-conforming file; tolerance of counters / blank runs / hour
-width / white space / terminators; tag scoping), refuted statements in coq/Findings/C10.v.
+read(print f) = cues f for every grammar-conforming file on which no recorded trigger fires; tag
+scoping for one cue text; tolerance of counters / blank runs / hour width / white space /
+terminators), refuted statements in coq/Findings/C10.v.
 
 Ties, all evaluated inside Coq on generated case files:
   * M = code : Model/SrtReader.v `to_model` against ttconv.srt.reader.to_model on (a) files printed from
@@ -518,7 +519,8 @@ def main():
         run.violation("table translator failed closed: " + "; ".join(errors), dict(kind="translator", errors=errors), False)
         return run.finish()
     if changed: run.log("tables regenerated:", changed)
-    ok, log = run.build(["Proofs/C10/Time.vo", "Proofs/C10/Lines.vo", "Proofs/C10/Text.vo", "Proofs/C10/Roundtrip.vo", "Proofs/C10/NoFinalEol.vo", "Proofs/C10/Font.vo", "Proofs/C10/Tags.vo", "Proofs/C10/Witness.vo",
+    ok, log = run.build(["Proofs/C10/Time.vo", "Proofs/C10/Lines.vo", "Proofs/C10/Text.vo", "Proofs/C10/Roundtrip.vo", "Proofs/C10/NoFinalEol.vo",
+                         "Proofs/C10/Font.vo", "Proofs/C10/Refs.vo", "Proofs/C10/Tags.vo", "Proofs/C10/Brace.vo", "Proofs/C10/Witness.vo",
                          "Model/SrtReaderCases.vo"], clean=(run.tier == "thorough"))
     proofs_ok = ok and run.theorems()
     if not ok: run.proof_log = log[-2500:]
@@ -702,4 +704,6 @@ def main():
 
 
 if __name__ == "__main__":
-    sys.exit(main())
+    with C.Lock("cases_c10"):          # two runs of this check must not share coq/Gen/Cases_C10_*.v
+        rc = main()
+    sys.exit(rc)
